@@ -142,6 +142,10 @@ PROPS = {
         level="proof",
         min_obligations=15,
         replay_family="c05",
+        kani=[dict(gen="kani/gen_f64.py", crate="kani_f64", harness="f64_from_parts_safe",
+                   claim="Parser::f64_from_parts (fast-float build), extracted from /repo with the POW10 table: for ALL (sign, significand: u64, exponent: i32) no panic "
+                         "(table index in bounds, exponent arithmetic cannot overflow), the scaling loop ends within 7 rounds (unwinding assertion on: complete, the value "
+                         "reaches 0.0 after two divisions by 1e308), and an Ok result is never infinite or NaN")],
         bounded=[dict(family="c05", what="the ASSUMED part: f64_from_parts (floating-point scaling) gives the nearest double on the exact path and the documented accuracy elsewhere; integer boundaries in every radix", bound="185 cases: 24 decimal literals incl. subnormal/extreme/over-long, 9 boundary integers x 5 radix prefixes x 3 signs, 5 over-long integers, 8 integers just past the 64-bit range, 12 magnitudes no double can hold (decimal and #b/#o/#x)")],
         explanation="The number scanner of parse/mod.rs (parse_num_literal, parse_long_integer, parse_num_tail, parse_decimal, parse_exponent, "
                     "parse_radix_literal) is extracted from /repo and verified against a declarative grammar (sp_num_literal / sp_num_tail / sp_decimal / "
@@ -150,8 +154,9 @@ PROPS = {
                     "absorbed into the significand with the exponent decremented per digit, saturating exponent arithmetic, and the (significand, exponent) "
                     "pair handed to f64_from_parts.",
         assumptions=[
-            "f64_from_parts is floating-point arithmetic over a 309-entry table: assumed to be a pure function f64_parts_spec(pos, significand, exponent) "
-            "(correct rounding on the exact path and never-infinite are NOT decided here)",
+            "f64_from_parts is floating-point arithmetic over a 309-entry table: in Verus an uninterpreted function f64_parts_spec(pos, significand, exponent); "
+            "that it never panics and never returns infinity/NaN is PROVED separately by the Kani harness f64_from_parts_safe (all inputs); correct rounding on the exact "
+            "path follows from IEEE-754 (one rounding of a product of two exactly represented factors) and is not machine-checked",
             "an over-long integer in radix r must equal radix_scale_spec(sig, r, k); for r = 10 this is f64_parts_spec (axiom)",
             "`x as i64` out-of-range cast, `-(x as f64)`, i64::wrapping_neg, i32::saturating_add/sub: assumed std semantics",
             "only the fast-float-parsing configuration of f64_from_parts is extracted",
@@ -276,6 +281,10 @@ PROPS = {
         level="proof",
         min_obligations=60,
         replay_family="c03",
+        kani=[dict(gen="kani/gen_f64.py", crate="kani_f64", harness="f64_from_parts_safe",
+                   claim="Parser::f64_from_parts (fast-float build), extracted from /repo with the POW10 table: for ALL (sign, significand: u64, exponent: i32) no panic "
+                         "(table index in bounds, exponent arithmetic cannot overflow), the scaling loop ends within 7 rounds (unwinding assertion on: complete, the value "
+                         "reaches 0.0 after two divisions by 1e308), and an Ok result is never infinite or NaN")],
         bounded=[dict(family="c03", what="no panic / no stack overflow / terminates on pathological inputs for the parts not modelled (stack size, f64_from_parts body): every byte string up to 2 bytes, token-alphabet strings, 10^5 nested openers of each kind", bound="21962 inputs x 2 option sets x value and datum API")],
         explanation="Every function of parse/read.rs (decoders, slice/str scanners) and parse/mod.rs (lexer, number scanner, next_value/expect_value/"
                     "parse_list/parse_vector/parse_byte_list/end_seq) is extracted from /repo and verified for: no arithmetic overflow, no out-of-bounds index or "
